@@ -7,7 +7,7 @@ open Verif.Impl
 def listing (d : Dir) : String :=
   let parts := d.map fun (n, f) => n ++ "=" ++ (match f with
     | .case dr sc => s!"C:{dr}:{sc}"
-    | .other => "O"
+    | .other t => s!"O{t}"
     | .badJson => "B")
   let sorted := parts.mergeSort (fun a b => decide (a ≤ b))
   if sorted.isEmpty then "-" else ",".intercalate sorted
@@ -57,7 +57,7 @@ def handleRepo (line : String) : String :=
       let (goRes, goList) := match out.splitOn "|" with | [a, b] => (a, b) | _ => ("?", "?")
       let f := op.splitOn ":"
       let (mres, d') : String × Dir := match f with
-        | ["plant", n] => ("ok", d.put n .other)
+        | ["plant", n] => ("ok", d.put n (.other 0))
         | ["plantbad", n] => ("ok", d.put n .badJson)
         | ["add", n] => let (ok, d') := add d n (n ++ ".a") (n ++ ".lua") true; (if ok then "ok" else "err", d')
         | ["addt", n, dr] => let (ok, d') := add d n dr (n ++ ".lua") false; (if ok then "ok" else "err", d')
